@@ -108,6 +108,7 @@ pub open spec fn member_key<C: KeyOfSetColumn>(k: &C::Key, e: &C::Element) -> Se
 pub type Keyspace = Handle;
 pub mod fjall {
     use super::*;
+    pub enum PersistMode { Buffer, SyncData, SyncAll }
     /// fjall::Iter: remembers what it scans
     #[verifier::external_body]
     pub struct Iter { _p: u8 }
@@ -119,6 +120,17 @@ pub mod fjall {
         #[verifier::external_body]
         pub fn insert<K: AsBytes, V: AsBytes>(&mut self, ks: &Handle, key: K, value: V)
             ensures final(self).ops() == old(self).ops().push(BOp::Put { ty: ks.ty(), kind: ks.kind(), key: key.seq(), value: value.seq() })
+        { unimplemented!() }
+        #[verifier::external_body]
+        /// OwnedWriteBatch::durability: only changes the persist mode
+        #[verifier::external_body]
+        pub fn durability(self, mode: Option<PersistMode>) -> (r: Self)
+            ensures r.ops() == self.ops()
+        { unimplemented!() }
+        /// OwnedWriteBatch::commit: one atomic write of everything in the batch
+        #[verifier::external_body]
+        pub fn commit(self) -> (r: Result<(), std::fmt::Error>)
+            ensures r is Ok, written(self.ops())
         { unimplemented!() }
         #[verifier::external_body]
         pub fn remove<K: AsBytes>(&mut self, ks: &Handle, key: K)
@@ -213,6 +225,9 @@ pub proof fn lemma_ops_cost_take(ops: Seq<Operation>, i: int)
         ensures final(self).batch.ops() == old(self).batch.ops().push(BOp::Del {
             ty: C::STABLE_TYPE_ID, kind: ColumnKind::KeyOfSet, key: member_key::<C>(key, value) })
 //@ member should_write_more
+//@ member commit
+//@ sig
+        ensures written(self.batch.ops())
 //@ end
 
 //@ impl crates/storage/src/kv_database/fjall.rs :: impl SerializationBuffer for FjallSerializationBuffer
